@@ -364,6 +364,10 @@ def cfb_variants(tier):
     out.append(("generated-many-streams", "many", cfb_build([("s%03d" % i, blob("s%d" % i, 37 * i + 1)) for i in range(60)])))
     out.append(("generated-v4-4096", "v4", cfb_build(base, sector_shift=12)))
     out.append(("generated-free-sectors", "free-sectors", cfb_build(base, pad_sectors=3)))
+    # an input that already carries a signature stream whose size sits exactly at / next to the mini-stream cutoff (4096): replacing it frees
+    # the old chain from the table its SIZE selects; relic's own test-key signatures (~1.9 KiB) never get there
+    for n in ((4096,) if tier != "thorough" else (4095, 4096, 4097, 8192)):
+        out.append(("generated-foreign-signature-%d" % n, "foreign-signature", cfb_build(base + [("\x05DigitalSignature", blob("sig%d" % n, n))])))
     if tier == "thorough":
         out.append(("generated-fat-exactly-full", "fat-full", cfb_build([("f%d" % i, blob("f%d" % i, 512 * 20)) for i in range(6)] + [("m", blob("m", 100))])))
         out.append(("generated-200-streams", "many", cfb_build([("t%03d" % i, blob("t%d" % i, (i * 131) % 9000)) for i in range(200)])))
